@@ -69,6 +69,16 @@ def configs(tier):
         out.extend(table_specs(ns, ne))
     if tier == 'thorough':
         out.extend(table_specs(3, 2))
+    # notations of the 'from states' column: None (any state), one name, 'a|b' (with blanks),
+    # list / tuple of names, and an EMPTY sequence (an event that is known but has no transition)
+    meaning = [['e', 'a', 'b'], ['e', 'b', 'c'], ['f', 'a|b', 'c'], ['g', None, 'a'], ['h', 'a', None]]
+    for raw in (
+            [('e', ['a'], 'b'), ('e', ('b',), 'c'), ('f', ['a', 'b'], 'c'), ('g', None, 'a'), ('h', [], 'a')],
+            [('e', 'a', 'b'), ('e', ' b ', 'c'), ('f', ' a | b ', 'c'), ('g', None, 'a'), ('h', (), 'b')],
+            [('f', ('b', 'a'), 'c'), ('h', [], 'c'), ('g', None, 'a'), ('e', 'b', 'c'), ('e', 'a', 'b')],
+            [('e', 'a', 'b'), ('e', 'b', 'c'), ('f', 'a', 'c'), ('f', ['b'], 'c'), ('g', None, 'a'),
+             ('h', 'a', None), ('h', [], 'b')]):
+        out.append(dict(kind='table', states=['a', 'b', 'c'], rules=meaning, raw_rules=raw))
     cyc = [['e', 'a', 'b'], ['e', 'b', 'a'], ['f', None, 'a']]
     vals = ['absent', True, False, 0, 'x', None]
     for m in vals:
@@ -133,7 +143,7 @@ def make_class(cfg, holder):
     rules = []
     for e, s, t in cfg['rules']:
         rules.append((e, s if s is None else (s if '|' in s else [s]), t))
-    ns['EVENTS'] = rules
+    ns['EVENTS'] = cfg['raw_rules'] if 'raw_rules' in cfg else rules
     kind = cfg['kind']
     enter_how = cfg.get('enter', 'm')
     exit_how = cfg.get('exit', 'm')
